@@ -28,6 +28,14 @@ def linesOK : Nat → List Tok → Bool
 
 def wfComments (comments : Array Bytes) : Prop := ∀ c ∈ comments.toList, wfComment c = true
 
+/-- more that `Render`'s pieces satisfy (used for the closure of the hypotheses under formatting,
+`Proof/RenderClosure.lean`): no listed bad pair on the whole line (names included), and the last
+token written is not a semicolon -/
+def Piece.ok2 : Piece → Prop
+  | .toks _ names _ lts _ _ =>
+    noBadPairs none (names ++ lts) = true ∧ ∀ tl, lts.getLast? = some tl → tl.id ≠ idSemicolon
+  | _ => True
+
 /-! ### comments -/
 
 theorem tabs_replicate (n : Int) : tabs n = List.replicate (4 * n).toNat 32 := rfl
@@ -60,7 +68,7 @@ lines from `commentLine` up to `upto`, in order); the other fields it leaves alo
 theorem flushComments_pieces (comments : Array Bytes) (hcm : wfComments comments) (ci : Int) (upto : Nat) :
     ∀ (f : Nat) (s : RSt), ∃ ps : List Piece,
       (flushComments comments ci upto f s).out = s.out ++ piecesBytes ps ∧
-      (∀ p ∈ ps, p.ok) ∧ ps.flatMap Piece.src = [] ∧
+      ((∀ p ∈ ps, p.ok) ∧ (∀ p ∈ ps, p.ok2)) ∧ ps.flatMap Piece.src = [] ∧
       (flushComments comments ci upto f s).indent = s.indent ∧
       (flushComments comments ci upto f s).inStruct = s.inStruct ∧
       (flushComments comments ci upto f s).prevLineHanging = s.prevLineHanging ∧
@@ -71,7 +79,7 @@ theorem flushComments_pieces (comments : Array Bytes) (hcm : wfComments comments
   induction f with
   | zero =>
     intro s
-    refine ⟨[], by simp [flushComments, piecesBytes], by simp, rfl, rfl, rfl, rfl, ?_⟩
+    refine ⟨[], by simp [flushComments, piecesBytes], ⟨by simp, by simp⟩, rfl, rfl, rfl, rfl, ?_⟩
     intro h
     have e : upto - s.commentLine = 0 := by omega
     rw [e]
@@ -106,15 +114,25 @@ theorem flushComments_pieces (comments : Array Bytes) (hcm : wfComments comments
         · rw [h1]
           simp only [piecesBytes, List.flatMap_append, List.flatMap_cons, Piece.bytes, tabs_replicate]
           split <;> simp [Piece.bytes, List.append_assoc]
-        · intro p hp
-          rw [List.mem_append] at hp
-          rcases hp with hp | hp
-          · split at hp
-            · simp only [List.mem_singleton] at hp; subst hp; trivial
-            · simp at hp
-          · rcases List.mem_cons.mp hp with rfl | hp
-            · exact ⟨hw, hne⟩
-            · exact h2 p hp
+        · refine ⟨?_, ?_⟩
+          · intro p hp
+            rw [List.mem_append] at hp
+            rcases hp with hp | hp
+            · split at hp
+              · simp only [List.mem_singleton] at hp; subst hp; trivial
+              · simp at hp
+            · rcases List.mem_cons.mp hp with rfl | hp
+              · exact ⟨hw, hne⟩
+              · exact h2.1 p hp
+          · intro p hp
+            rw [List.mem_append] at hp
+            rcases hp with hp | hp
+            · split at hp
+              · simp only [List.mem_singleton] at hp; subst hp; trivial
+              · simp at hp
+            · rcases List.mem_cons.mp hp with rfl | hp
+              · trivial
+              · exact h2.2 p hp
         · rw [List.flatMap_append, List.flatMap_cons, h3]
           split <;> simp [Piece.src]
         · intro hf
@@ -127,7 +145,7 @@ theorem flushComments_pieces (comments : Array Bytes) (hcm : wfComments comments
           rw [List.flatMap_append, List.flatMap_cons, hb, g2, hrange, cmtRange, ← hcom]
           simp [Piece.srcItems, Piece.src, Piece.outComment, hse, hc]
     · rename_i hge
-      refine ⟨[], by simp [piecesBytes], by simp, rfl, rfl, rfl, rfl, ?_⟩
+      refine ⟨[], by simp [piecesBytes], ⟨by simp, by simp⟩, rfl, rfl, rfl, rfl, ?_⟩
       intro _
       have e : upto - s.commentLine = 0 := by omega
       rw [e]
@@ -159,10 +177,11 @@ theorem semicolon_text {t : Tok} (h : wfTok t = true) (hid : t.id = idSemicolon)
 
 theorem stripSemicolons_split (g : List Tok) :
     ∃ semis, g = (stripSemicolons g).1 ++ semis ∧ (∀ t ∈ semis, t.id = idSemicolon) ∧
-      semis.length = g.length - (stripSemicolons g).1.length := by
+      semis.length = g.length - (stripSemicolons g).1.length ∧
+      (∀ tl, (stripSemicolons g).1.getLast? = some tl → tl.id ≠ idSemicolon) := by
   unfold stripSemicolons
   simp only
-  refine ⟨(g.reverse.takeWhile (·.id == idSemicolon)).reverse, ?_, ?_, ?_⟩
+  refine ⟨(g.reverse.takeWhile (·.id == idSemicolon)).reverse, ?_, ?_, ?_, ?_⟩
   · have := List.takeWhile_append_dropWhile (p := fun t : Tok => t.id == idSemicolon) (l := g.reverse)
     have h2 := congrArg List.reverse this
     rw [List.reverse_append, List.reverse_reverse] at h2
@@ -175,6 +194,11 @@ theorem stripSemicolons_split (g : List Tok) :
     have h2 := congrArg List.length this
     simp only [List.length_append, List.length_reverse] at h2 ⊢
     omega
+  · intro tl htl
+    rw [List.getLast?_reverse] at htl
+    have := List.head?_dropWhile_not (fun t : Tok => t.id == idSemicolon) g.reverse
+    rw [htl] at this
+    simpa using this
 
 theorem noBadPairs_weaken (p : Option Tok) (l : List Tok) (h : noBadPairs p l = true) :
     noBadPairs none l = true := by
@@ -317,7 +341,8 @@ theorem itemsF_advance (c : Nat → Bytes) (hi : Nat) (hEmpty : ∀ i, hi ≤ i 
 theorem renderLoop_pieces (comments : Array Bytes) (hcm : wfComments comments) :
     ∀ (f : Nat) (s s' : RSt) (ts : List Tok), renderLoop comments f s ts = some s' →
       (∀ t ∈ ts, wfTok t = true) → linesOK f ts = true →
-      ∃ ps : List Piece, s'.out = s.out ++ piecesBytes ps ∧ (∀ p ∈ ps, p.ok) ∧ ps.flatMap Piece.src = ts ∧
+      ∃ ps : List Piece, s'.out = s.out ++ piecesBytes ps ∧ ((∀ p ∈ ps, p.ok) ∧ (∀ p ∈ ps, p.ok2)) ∧
+        ps.flatMap Piece.src = ts ∧
         (SortedLines ts → (∀ t ∈ ts, s.commentLine ≤ t.line) →
           itemsF (getC comments) comments.size s.commentLine ts =
             ps.flatMap Piece.srcItems ++
@@ -331,7 +356,7 @@ theorem renderLoop_pieces (comments : Array Bytes) (hcm : wfComments comments) :
     | nil =>
       simp only [renderLoop, Option.some.injEq] at h
       subst h
-      exact ⟨[], by simp [piecesBytes], by simp, rfl, fun _ _ => by simp [itemsF]⟩
+      exact ⟨[], by simp [piecesBytes], ⟨by simp, by simp⟩, rfl, fun _ _ => by simp [itemsF]⟩
     | cons t0 rest =>
       rw [linesOK, Bool.and_eq_true] at hlines
       obtain ⟨hline, hrestOK⟩ := hlines
@@ -351,11 +376,11 @@ theorem renderLoop_pieces (comments : Array Bytes) (hcm : wfComments comments) :
       have hts : t0 :: rest = (t0 :: rest.takeWhile (·.line == t0.line)) ++ rest.dropWhile (·.line == t0.line) := by
         simp
       generalize hg : t0 :: rest.takeWhile (·.line == t0.line) = g at h hline hts hgline
-      obtain ⟨semis, hsplit, hsemi, hslen⟩ := stripSemicolons_split g
+      obtain ⟨semis, hsplit, hsemi, hslen, hlastns⟩ := stripSemicolons_split g
       unfold lineOK at hline
       simp only at hline
       generalize (stripSemicolons g).2 = stripped at h
-      generalize (stripSemicolons g).1 = lt at h hline hsplit hslen
+      generalize (stripSemicolons g).1 = lt at h hline hsplit hslen hlastns
       split at h
       · simp at hline
       · rename_i lt0 ltRest
@@ -366,7 +391,7 @@ theorem renderLoop_pieces (comments : Array Bytes) (hcm : wfComments comments) :
         have hshape : ∃ (z : Int) (names : List Tok) (m : Nat),
             X.1 = tabs z ++ (namesBytes names ++ List.replicate m 32) ∧
             lt0 :: ltRest = names ++ X.2.1 ∧ X.2.1 ≠ [] ∧ X.2.1.getLast? = (lt0 :: ltRest).getLast? ∧
-            noBadPairs none X.2.1 = true := by
+            noBadPairs none X.2.1 = true ∧ noBadPairs none (lt0 :: ltRest) = true := by
           have hnb : noBadPairs none (lt0 :: ltRest) = true := by
             cases hgl : (lt0 :: ltRest).getLast? with
             | none => simp at hgl
@@ -378,17 +403,17 @@ theorem renderLoop_pieces (comments : Array Bytes) (hcm : wfComments comments) :
           rw [← hX]
           by_cases h4 : (lt0 :: ltRest).length < 4
           · rw [if_pos h4]
-            exact ⟨_, [], 0, by rw [hnil, List.append_nil], by simp, by simp, rfl, hnb⟩
+            exact ⟨_, [], 0, by rw [hnil, List.append_nil], by simp, by simp, rfl, hnb, hnb⟩
           · rw [if_neg h4]
             cases B with
             | false =>
               rw [if_neg (by simp)]
-              exact ⟨_, [], 0, by rw [hnil, List.append_nil], by simp, by simp, rfl, hnb⟩
+              exact ⟨_, [], 0, by rw [hnil, List.append_nil], by simp, by simp, rfl, hnb, hnb⟩
             | true =>
               rw [if_pos rfl]
               cases hcolon : findColon (lt0 :: ltRest) with
               | none =>
-                exact ⟨_, [], 0, by rw [hnil, List.append_nil], by simp, by simp, rfl, hnb⟩
+                exact ⟨_, [], 0, by rw [hnil, List.append_nil], by simp, by simp, rfl, hnb, hnb⟩
               | some colon =>
                 have hlt := findIdx?_lt _ _ _ hcolon
                 simp only []
@@ -396,8 +421,8 @@ theorem renderLoop_pieces (comments : Array Bytes) (hcm : wfComments comments) :
                   by rw [namesBytes_foldl, List.nil_append, List.append_assoc],
                   (List.take_append_drop _ _).symm,
                   by simp only [ne_eq, List.drop_eq_nil_iff, Nat.not_le]; exact hlt,
-                  getLast?_drop _ _ hlt, noBadPairs_drop _ _ hnb⟩
-        obtain ⟨z, names, m, hX1, hX2, hX3, hX4, hX5⟩ := hshape
+                  getLast?_drop _ _ hlt, noBadPairs_drop _ _ hnb, hnb⟩
+        obtain ⟨z, names, m, hX1, hX2, hX3, hX4, hX5, hX6⟩ := hshape
         have hY1 : Y.1 = s1.out ++ piecesBytes (if s1.prevLine < t0.line - 1 then [Piece.blank] else []) := by
           rw [← hY]
           split <;> simp [piecesBytes, Piece.bytes]
@@ -418,7 +443,7 @@ theorem renderLoop_pieces (comments : Array Bytes) (hcm : wfComments comments) :
             apply hwf
             rw [hts]
             exact List.mem_append_right _ ht
-          obtain ⟨ps', hp1, hp2, hp3, hp4⟩ := ih _ _ _ h hwfsrc hrestOK
+          obtain ⟨ps', hp1, ⟨hp2, hp2'⟩, hp3, hp4⟩ := ih _ _ _ h hwfsrc hrestOK
           simp only at hp1 hp4
           obtain ⟨com, hcom, hcw, _, hct⟩ := commentText_shape comments hcm t0.line 0
           rw [hct, hbuf, hX1, hY1, hF1] at hp1
@@ -427,10 +452,25 @@ theorem renderLoop_pieces (comments : Array Bytes) (hcm : wfComments comments) :
           · rw [hp1]
             simp only [piecesBytes, List.flatMap_append, List.flatMap_cons, List.flatMap_nil, Piece.bytes,
               List.append_assoc, List.append_nil, tabs_replicate]
-          · intro p hp
+          · refine ⟨?_, ?_⟩
+            rotate_left
+            · intro p hp
+              simp only [List.mem_append, List.mem_singleton] at hp
+              rcases hp with ((hp | hp) | hp) | hp
+              · exact hF2.2 p hp
+              · split at hp
+                · simp only [List.mem_singleton] at hp; subst hp; trivial
+                · simp at hp
+              · subst hp
+                refine ⟨by rw [← hX2]; exact hX6, ?_⟩
+                intro tl htl
+                rw [hX4] at htl
+                exact hlastns tl htl
+              · exact hp2' p hp
+            intro p hp
             simp only [List.mem_append, List.mem_singleton] at hp
             rcases hp with ((hp | hp) | hp) | hp
-            · exact hF2 p hp
+            · exact hF2.1 p hp
             · split at hp
               · simp only [List.mem_singleton] at hp; subst hp; trivial
               · simp at hp
@@ -483,7 +523,7 @@ theorem renderLoop_pieces (comments : Array Bytes) (hcm : wfComments comments) :
 theorem trailingComments_pieces (comments : Array Bytes) (hcm : wfComments comments) :
     ∀ (f : Nat) (s : RSt), ∃ ps : List Piece,
       (trailingComments comments f s).out = s.out ++ piecesBytes ps ∧
-      (∀ p ∈ ps, p.ok) ∧ ps.flatMap Piece.src = [] ∧
+      (∀ p ∈ ps, p.ok ∧ p.ok2) ∧ ps.flatMap Piece.src = [] ∧
       (comments.size - s.commentLine ≤ f →
         ps.flatMap Piece.srcItems = cmtRange (getC comments) s.commentLine (comments.size - s.commentLine)) := by
   intro f
@@ -527,10 +567,10 @@ theorem trailingComments_pieces (comments : Array Bytes) (hcm : wfComments comme
           rw [List.mem_append] at hp
           rcases hp with hp | hp
           · split at hp
-            · simp only [List.mem_singleton] at hp; subst hp; trivial
+            · simp only [List.mem_singleton] at hp; subst hp; exact ⟨trivial, trivial⟩
             · simp at hp
           · rcases List.mem_cons.mp hp with rfl | hp
-            · exact ⟨hw, hne⟩
+            · exact ⟨⟨hw, hne⟩, trivial⟩
             · exact h2 p hp
         · rw [List.flatMap_append, List.flatMap_cons, h3]
           split <;> simp [Piece.src]
@@ -554,13 +594,13 @@ theorem render_pieces (toks : List Tok) (comments : Array Bytes) (out : Bytes)
     (hwf : ∀ t ∈ toks, wfTok t = true) (hcm : wfComments comments)
     (hlines : linesOK (toks.length + 1) toks = true) (h : render toks comments = some out) :
     ∃ ps : List Piece, out = piecesBytes ps ∧ (∀ p ∈ ps, p.ok) ∧ ps.flatMap Piece.src = toks ∧
-      (SortedLines toks → items toks comments = ps.flatMap Piece.srcItems) := by
+      (SortedLines toks → items toks comments = ps.flatMap Piece.srcItems) ∧ (∀ p ∈ ps, p.ok2) := by
   unfold render at h
   split at h
   · rename_i he
     simp only [Bool.and_eq_true, List.isEmpty_iff, Array.isEmpty_iff] at he
     simp only [Option.some.injEq] at h
-    refine ⟨[], by rw [← h]; rfl, by simp, by simp [he.1], ?_⟩
+    refine ⟨[], by rw [← h]; rfl, by simp, by simp [he.1], ?_, by simp⟩
     intro _
     rw [he.1, he.2]
     rfl
@@ -571,13 +611,18 @@ theorem render_pieces (toks : List Tok) (comments : Array Bytes) (out : Bytes)
       obtain ⟨ps1, h1, h2, h3, h4⟩ := renderLoop_pieces comments hcm _ _ _ _ hs hwf hlines
       obtain ⟨ps2, g1, g2, g3, g4⟩ := trailingComments_pieces comments hcm (comments.size + 1) s
       simp only [Option.some.injEq] at h
-      refine ⟨ps1 ++ ps2, ?_, ?_, ?_, ?_⟩
+      refine ⟨ps1 ++ ps2, ?_, ?_, ?_, ?_, ?_⟩
+      rotate_right
+      · intro p hp
+        rcases List.mem_append.mp hp with hp | hp
+        · exact h2.2 p hp
+        · exact (g2 p hp).2
       · rw [← h, g1, h1]
         simp [piecesBytes]
       · intro p hp
         rcases List.mem_append.mp hp with hp | hp
-        · exact h2 p hp
-        · exact g2 p hp
+        · exact h2.1 p hp
+        · exact (g2 p hp).1
       · rw [List.flatMap_append, h3, g3, List.append_nil]
       · intro hsorted
         unfold items
